@@ -20,14 +20,14 @@ Init == /\ \E v \in Variants : s = TrngInit(v)
 OsCall(o) ==
     /\ s.pc # "done"
     /\ o \in Outcomes(s)
-    /\ (o \in Transient \cup {"SHORT"}) => ntrans < MaxTransient
+    /\ (o \in Transient \cup {"SHORT", "PARTIAL"}) => ntrans < MaxTransient
     /\ s' = TrngStep(s, o)
-    /\ ntrans' = IF o \in Transient \cup {"SHORT"} THEN ntrans + 1 ELSE ntrans
+    /\ ntrans' = IF o \in Transient \cup {"SHORT", "PARTIAL"} THEN ntrans + 1 ELSE ntrans
     /\ sawperm' = (sawperm \/ o \in {"PERM", "OPENFAIL"})
     /\ sawok' = (sawok \/ o = "OK")
     /\ hist' = Append(hist, o)
 
-Next == \E o \in {"OK", "EINTR", "EAGAIN", "PERM", "SHORT", "FD", "OPENFAIL", "CLOSED"} : OsCall(o)
+Next == \E o \in {"OK", "EINTR", "EAGAIN", "PERM", "SHORT", "PARTIAL", "FD", "OPENFAIL", "CLOSED"} : OsCall(o)
 Spec == Init /\ [][Next]_vars
 
 \* fairness: the machine keeps calling, and the environment does not fail transiently forever
